@@ -1,20 +1,18 @@
 #!/usr/bin/env python3
-"""C06 — reproduction of two open findings on the REAL code (no Lean model involved).
+"""C06 — regression ops for two repaired defects of /repo, run on the REAL code (no Lean model involved).
 
-  C06:max-no-progress-zero-division   `if (no_progress > 0 || k % params.max_no_progress == 0)` in panoc.tpp,
-      zerofpr.tpp, fista.tpp, panoc-ocp.tpp: with max_no_progress = 0 the first evaluation of the condition is
-      an integer division by zero — the process dies with SIGFPE in the first iteration (PANTR never updates
-      the counter and is not affected).  Each corpus op (checks/corpus/c06_max_no_progress_zero.txt) is run in
-      its own harness process.
-  C06:ipopt-box-multiplier-sign       PANOCStopCrit::Ipopt in panoc-helpers.tpp: the vector whose 1-norm enters
-      the scaling s_d is computed as (Π_C(v) − x̂) − ∇ψ(x̂) instead of w = v − Π_C(v) = x̂ − ∇ψ(x̂) − Π_C(v)
-      (the prox step returned by eval_prox_grad_step is Π_C(v) − x̂, the source comment assumes the opposite
-      sign): the returned ε differs from the documented formula whenever s_d > 1.
+  C06:max-no-progress-zero-division   (fixed, /repo commit f7343661f)  `if (no_progress > 0 || k %
+      params.max_no_progress == 0)` in panoc.tpp, zerofpr.tpp, fista.tpp, panoc-ocp.tpp divided by zero for
+      max_no_progress = 0 (SIGFPE in the first iteration).  Each corpus op
+      (checks/corpus/c06_max_no_progress_zero.txt: one run per solver with maxnp=0) is run in its own harness
+      process and must return normally.
+  C06:ipopt-box-multiplier-sign       (fixed, /repo commit f69b0f2f3)  PANOCStopCrit::Ipopt took the 1-norm of
+      (Π_C(v) − x̂) − ∇ψ(x̂) instead of w = v − Π_C(v) for the scaling s_d.  The ops of IPOPT_OPS (s_d > 1) must
+      return the documented value (exact rational evaluation of the formula in panoc-stop-crit.hpp).
 
-Interface:  stage(rep) -> number of findings reproduced (reports them on `rep` with their keys, so that an `open`
-entry of known-findings.json turns them into KNOWN-FINDING lines); stand-alone: prints what was observed.
-The shared checks are read-only for the author of this file; wiring = two lines in checks/c06.py, see the
-function `stage`.
+Interface:  stage(rep) -> number of regressions (each reported as a violation WITHOUT a known-finding key: a
+reappearance is a new violation); stand-alone: prints what was observed, exit status 1 on a regression.
+Wiring (coordinator): in checks/c06.py main, after kernel_stage(...):  import c06_findings; c06_findings.stage(rep)
 """
 import os
 import signal
@@ -26,7 +24,7 @@ sys.path.insert(0, os.path.dirname(os.path.abspath(__file__)))
 import common as C
 from common import f2h, h2f, vec2p
 
-NP0_KEY = 'C06:max-no-progress-zero-division'
+NP0_KEY = 'C06:max-no-progress-zero-division'      # names of the (fixed) findings, for messages only
 IPOPT_KEY = 'C06:ipopt-box-multiplier-sign'
 INF = float('inf')
 
@@ -67,6 +65,8 @@ IPOPT_OPS = [
     # (γ, p, x, x̂, ŷ, ∇ψ(x), ∇ψ(x̂), lb, ub)
     (1.0, [0.0], [0.0], [0.0], [], [0.0], [1000.0], [-INF], [INF]),     # unconstrained: w = 0, s_d = 1
     (1.0, [0.0], [0.0], [0.0], [], [0.0], [1000.0], [-1.0], [INF]),     # lower bound active after the unit step
+    (1.0, [0.0], [0.0], [0.0], [900.0, 900.0], [0.0], [1000.0], [-INF], [INF]),   # s_d = 3 from ŷ alone
+    (0.5, [0.0, 0.0], [1.0, -2.0], [0.5, 0.25], [640.0], [0.0, 0.0], [-768.0, 512.0], [-1.0, -INF], [2.0, 1.0]),
 ]
 
 
@@ -107,26 +107,31 @@ def ipopt_probe():
     return res
 
 
+def regressions():
+    """-> [(message, payload)] for every regression op that misbehaves on the tree under test."""
+    out = []
+    for s_, rc, op in np0_probe():
+        if rc is None:
+            out.append((f'[{s_}] harness does not build', {'solver': s_}))
+        elif rc != 0:
+            sig = f' ({signal.Signals(-rc).name})' if rc < 0 else ''
+            out.append((f'[{s_}] real solver ended with return code {rc}{sig} on a run with max_no_progress = 0 '
+                        f'(regression of {NP0_KEY})', {'solver': s_, 'op': op, 'returncode': rc}))
+    for o, e, d in ipopt_probe():
+        if not abs(e - d) <= 8 * 2.0 ** -52 * max(1.0, abs(d)):
+            out.append((f'Ipopt: calc_error_stop_crit returns ε={e!r}, the documented formula gives {d!r} '
+                        f'(regression of {IPOPT_KEY})', {'op': o, 'impl': e, 'documented': d}))
+    return out
+
+
 def stage(rep):
-    """Report both findings on an existing Report (call from checks/c06.py main, after the kernel stage:
-           import c06_findings
-           c06_findings.stage(rep)
-    ).  Returns the number of findings reproduced."""
-    n = 0
-    crashed = [(s, rc, op) for s, rc, op in np0_probe() if rc is not None and rc < 0]
-    if crashed:
-        n += 1
-        s, rc, op = crashed[0]
-        rep.violation(f'[{", ".join(c[0] for c in crashed)}] real solver killed by signal {-rc} '
-                      f'({signal.Signals(-rc).name}) with max_no_progress = 0: `k % params.max_no_progress`',
-                      {'solver': s, 'op': op, 'returncode': rc}, True, key=NP0_KEY)
-    bad = [(o, e, d) for o, e, d in ipopt_probe() if abs(e - d) > 1e-9 * max(1.0, abs(d))]
-    if bad:
-        n += 1
-        o, e, d = bad[0]
-        rep.violation(f'Ipopt: calc_error_stop_crit returns ε={e!r}, the documented formula gives {d!r}',
-                      {'op': o, 'impl': e, 'documented': d}, True, key=IPOPT_KEY)
-    return n
+    """Run the regression ops and report failures on an existing Report (checks/c06.py main, after the kernel
+    stage).  Returns the number of regressions."""
+    regs = regressions()
+    rep.cov['regression_ops_c06_findings'] = len(corpus_np0()) + len(IPOPT_OPS)
+    for msg, payload in regs:
+        rep.violation(msg, payload, True)
+    return len(regs)
 
 
 if __name__ == '__main__':
@@ -135,3 +140,7 @@ if __name__ == '__main__':
               (f' ({signal.Signals(-rc).name})' if rc is not None and rc < 0 else ''))
     for o, e, d in ipopt_probe():
         print(f'Ipopt: real ε = {e!r}, documented ε = {d!r}   ({o[:60]}…)')
+    regs = regressions()
+    for msg, _ in regs:
+        print('REGRESSION:', msg)
+    sys.exit(1 if regs else 0)
